@@ -48,7 +48,9 @@ def new_sandbox() -> str:
     """Create a private directory; the caller removes it with drop_sandbox()."""
     global _scratch_counter
     _scratch_counter += 1
-    path = os.path.join(scratch_base(), f"a816-verif-{os.getpid()}-{_scratch_counter}")
+    # fixed-width name: absolute paths can appear inside source text ($ROOT$), and the number of
+    # interpreter steps spent scanning them must not depend on how many digits the pid happens to have
+    path = os.path.join(scratch_base(), f"a816-verif-{os.getpid():08d}-{_scratch_counter:07d}")
     if os.path.exists(path):
         shutil.rmtree(path, ignore_errors=True)
     os.makedirs(path)
